@@ -325,6 +325,25 @@ def unreferenced_rules(an: Analysis, rep):
                 if isinstance(c, ast.Attribute) and c.attr == mapattr and isinstance(lp.target, ast.Name) and isinstance(n.test.left, ast.Name) and n.test.left.id == lp.target.id:
                     if any(isinstance(y, (ast.Yield, ast.YieldFrom)) for b in n.body for y in ast.walk(b)) and not n.orelse:
                         ok_guard = True
+    # ... and every entry it yields reaches the data: the consumers do not filter
+    n_cons = 0
+    for g2 in an.closure("from_code"):
+        for c in ast.walk(g2.node):
+            if isinstance(c, (ast.GeneratorExp, ast.ListComp, ast.SetComp)):
+                for gi in c.generators:
+                    if isinstance(gi.iter, ast.Call) and isinstance(gi.iter.func, ast.Attribute) and gi.iter.func.attr == gen.name:
+                        n_cons += 1
+                        rep.add("R09.3", f"{g2.qual}::every unreferenced entry of {norm_src(gi.iter.func.value)} is kept", not gi.ifs, loc(g2.module, c),
+                                "no filter on the entries" if not gi.ifs else
+                                f"`{norm_src(c)[:90]}` drops the unreferenced entries for which `{norm_src(gi.ifs[0])}` is false: they are in the code object's table but not in the "
+                                f"data, so to_code() rebuilds a shorter table (e.g. an unused cell variable that is also a parameter: co_cellvars becomes (), CO_NOFREE appears)")
+            if isinstance(c, ast.For) and isinstance(c.iter, ast.Call) and isinstance(c.iter.func, ast.Attribute) and c.iter.func.attr == gen.name:
+                n_cons += 1
+                skips = [x for x in ast.walk(c) if isinstance(x, ast.Continue)]
+                rep.add("R09.3", f"{g2.qual}::every unreferenced entry of {norm_src(c.iter.func.value)} is kept", not skips, loc(g2.module, c),
+                        "no entry is skipped" if not skips else "the loop over the unreferenced entries skips some of them (`continue`)")
+    if n_cons == 0:
+        raise AnalysisError(f"no consumer of {gen.qual} found in the decode closure")
     rep.add("R09.3", f"{gen.qual}::ranges over every index of the table", ok_range, loc(gen.module, gen.node),
             "for i in range(len(table))" if ok_range else "does not range over every index of the table")
     rep.add("R09.3", f"{gen.qual}::yields exactly the never-met indices", ok_guard, loc(gen.module, gen.node),
